@@ -233,6 +233,8 @@ def judge(w, B1, T1, close_after):
             w.net.clock.t = max(w.net.clock.t, B1.ts)
             w.O.send(DataMessage(DATA_BLOCK, world.from_wire(B1.block)))
             s2 = w.snapshot()
+            if not w.O.alive:
+                bad.append(('victim-affected', "the honest peer that delivered a valid block after the attack was dropped for it"))
             if B1.bid not in s2['state_ids'] or B1.bid not in s2['rows']:
                 bad.append(('honest-delivery-impaired', "after the attack a valid block delivered by an honest peer is not accepted "
                             "and stored (in state: %s, in store: %s)" % (B1.bid in s2['state_ids'], B1.bid in s2['rows'])))
@@ -489,6 +491,13 @@ def mutant_families(ctx, phase):
         pl = msgs[names.index(nm)][1]
         for v in (b'\xff\xff\xff\xff\x7f', b'\x83\xff\x7f', b'\x80\x01', b'\x02', b'\x7f', b'\xff' * 12 + b'\x00'):
             yield 'listlen', '%s count replaced by %s' % (nm, v.hex()), b''.join(hello) + frame(pl[:off] + v + pl[off + 1:]), False, F1
+    # 7+. a list count that never ends: megabytes of continuation octets (the frame is far below the 32 MB frame limit).  A decoder
+    #     that keeps accumulating an ever longer integer needs time quadratic in the length - minutes for this one, days for a
+    #     full-size frame - during which the event loop serves nobody (the watchdog reports it)
+    for nm, off in sites[:2]:
+        pl = msgs[names.index(nm)][1]
+        yield 'endless-count', '%s count replaced by 3,000,000 continuation octets' % nm, \
+            b''.join(hello) + frame(pl[:off] + b'\xff' * 3_000_000 + b'\x00' + pl[off + 1:]), False, F1
     # 7b. crafted, structurally invalid / rule-breaking blocks and transactions as data messages (one broken rule each)
     w = AttackWorld(phase, False)
     try:
@@ -520,6 +529,17 @@ def mutant_families(ctx, phase):
             hdr53 + b'\x00\x04\x00\x00\x00' + enc.enc_block(far)), False, F3
         yield 'broken-block-as-unrequested-answer', 'height-far-beyond-chain', b''.join(hello) + frame(
             hdr53r + b'\x00\x04\x00\x00\x00' + enc.enc_block(far)), False, F3
+        # a block whose parent the node does not have yet (the transcript's valid block, which an honest peer delivers AFTER the
+        # attack) and which cannot be applied: whatever the node does with early arrivals, the honest peer that later delivers
+        # the parent must not pay for it
+        try:
+            for c in cands.c01_candidates(B1n, w.uni):
+                if not getattr(c, 'control', False) and 'missing' in c.name and c.wire() is not None:
+                    yield 'unappliable-child-of-a-block-not-yet-known', c.name, b''.join(hello) + frame(
+                        hdr53 + b'\x00\x04\x00\x00\x00' + enc.enc_block(c.block)), False, F1
+                    break
+        except Exception:
+            pass
         # ... and as a REQUESTED answer: the attacker lists the block in an inventory, the node asks for it, the block arrives as
         # the answer (the bulk-download path, where full validation is by design left to every 10,000th block).  A block
         # whose stated height is not its parent's plus one can belong to no valid chain whatever follows it, and the
